@@ -61,3 +61,37 @@ class ReachGate:
                 pass
             self.active = False
         return {a: (a in self.functions) for a in self.anchors}
+
+
+def property_anchor_ranges(prop):
+    """[(label, relpath under sym_metanet/, lo, hi)] parsed from the anchors of a property record."""
+    import json
+    import re
+
+    from vf.env import VERIF_DIR
+
+    out = []
+    with open(os.path.join(VERIF_DIR, "properties.jsonl")) as f:
+        for line in f:
+            d = json.loads(line)
+            if d["id"] != prop:
+                continue
+            for grp in ("state", "mechanism"):
+                for m in d["anchors"].get(grp, []):
+                    for part in m.get("where", "").split(";"):
+                        mm = re.search(r"src/sym_metanet/([\w/]+\.py):([\d,\-]+)", part)
+                        if not mm:
+                            continue
+                        for rng in mm.group(2).split(","):
+                            lo, _, hi = rng.partition("-")
+                            out.append((m.get("name", "")[:60], mm.group(1), int(lo), int(hi or lo)))
+    return out
+
+
+def anchor_report(prop, lines):
+    """Per anchor range: how many source lines of the range were executed by the workload."""
+    rep = []
+    for label, rel, lo, hi in property_anchor_ranges(prop):
+        n = sum(1 for (f, ln) in lines if f == rel and lo <= ln <= hi)
+        rep.append({"anchor": label, "file": rel, "lines": f"{lo}-{hi}", "executed_lines": n})
+    return rep
